@@ -605,6 +605,9 @@ func (w *Worker) RunJob(j job, solverBin string, shared *workList, jr *JobResult
 		return
 	}
 	defer sol.Close()
+	if j.hcfg != nil && len(j.hcfg.cur.SolverOpts) > 0 {
+		sol.SetPreamble(strings.Join(j.hcfg.cur.SolverOpts, "\n") + "\n")
+	}
 	local := &JobResult{Harness: jr.Harness, Reached: map[string]bool{}, Witness: map[string][]TapeEntry{}, Funcs: map[string]bool{}}
 	it := &Interp{C: ctx, S: sol, L: w.L, Cfg: w.Cfg,
 		globals: map[*ssa.Global]*Obj{}, pkgInit: map[*ssa.Package]int{}, fninfo: map[*ssa.Function]*fnInfo{},
